@@ -184,6 +184,14 @@ public:
         return os.str();
     }
 
+    std::string className(const CXXRecordDecl* rd)
+    {
+        std::string n = qualName(rd);
+        if (auto* sp = dyn_cast<ClassTemplateSpecializationDecl>(rd))
+            n += "<" + targs(&sp->getTemplateArgs()) + ">";
+        return n;
+    }
+
     std::string fnId(const FunctionDecl* fd)
     {
         if (!fd)
@@ -1387,7 +1395,7 @@ public:
         json::Object flags;
         if (md)
         {
-            f["class"] = qualName(md->getParent());
+            f["class"] = className(md->getParent());
             if (md->isVirtual())
                 flags["virtual"] = true;
             json::Array ov;
@@ -1493,7 +1501,7 @@ public:
         if (!seenClasses.insert(rd).second)
             return;
         json::Object c;
-        c["name"] = qualName(rd);
+        c["name"] = className(rd);
         c["file"] = fileOf(rd->getLocation());
         c["line"] = lineOf(rd->getLocation());
         if (rd->isDependentContext())
@@ -1509,7 +1517,7 @@ public:
             json::Object bo;
             bo["type"] = ty(b.getType());
             if (auto* brd = b.getType()->getAsCXXRecordDecl())
-                bo["name"] = qualName(brd);
+                bo["name"] = className(brd);
             bo["virtual"] = b.isVirtual();
             bo["access"] = b.getAccessSpecifier() == AS_public ?
                                "public" :
